@@ -12,18 +12,21 @@ import tempfile
 import common as C
 
 PID = "C08"
-DRIVER = [("C08", "TfPwaV.Model.FitF", "FitF.handle")]
-LEAN_TARGETS = ["TfPwaV.Props.C08", "TfPwaV.Model.FitF"]
-PROP_MODULES = ["TfPwaV.Props.C08"]
+DRIVER = [("C08", "TfPwaV.Model.FitF", "FitF.handle"), ("C08b", "TfPwaV.Gen.FitImproveF", "FitImproveF.handle")]
+LEAN_TARGETS = ["TfPwaV.Props.C08", "TfPwaV.Model.FitF", "TfPwaV.Props.C08b", "TfPwaV.Gen.FitImproveF"]
+PROP_MODULES = ["TfPwaV.Props.C08", "TfPwaV.Props.C08b"]
 ALL_MODULES = ["TfPwaV.Model.Vars", "TfPwaV.Model.VarsF", "TfPwaV.Model.Fit", "TfPwaV.Model.FitF", "TfPwaV.Proofs.Vars",
-               "TfPwaV.Proofs.Fit", "TfPwaV.Proofs.FitR", "TfPwaV.Proofs.PolarBound", "TfPwaV.Props.C08"]
+               "TfPwaV.Proofs.Fit", "TfPwaV.Proofs.FitR", "TfPwaV.Proofs.PolarBound", "TfPwaV.Props.C08",
+               "TfPwaV.Proofs.FitImprove", "TfPwaV.Props.C08b"]
 ASSUMPTIONS = [
     "the minimiser (scipy.optimize.minimize, tf_pwa.fit_improve.minimize, iminuit.Minuit) is an oracle: an arbitrary finite list of evaluations, then an arbitrary answer (x, fun, success, with or without hess_inv) of the length of the free-parameter list, or LargeNumberError from the callback; nothing about convergence is assumed or proved",
     "min_nll = NLL(params), min_nll <= NLL(start) and 'bounded parameters inside their bounds' for the branches that hand the bounds to the external optimiser (L-BFGS-B, iminuit limits) depend on the external optimiser: validated on the implementation (synthetic FCN with every method name + a small real model), not proved",
     "the model state reached before the fit satisfies the C16 invariant (Vars.Inv: free list duplicate-free, every free name bound, no two free names on one variable object), which C16 proves for every well-phased configuration history; no mask_params active, pre_trans empty",
-    "fit options outside the Lean model: check_grad=True (extra evaluations after the fit; covered by the search only), improve=True (ConfigLoader.fit always passes improve=False), method='root' (needs ROOT), grad_scale != 1 (only rescales min_nll)",
+    "fit options outside the Lean model: check_grad=True (extra evaluations after the fit; covered by the search in every run), improve=True (ConfigLoader.fit always passes improve=False; covered by the search in every run for BFGS / CG / test), method='root' (needs PyROOT; the search checks that it fails before touching the model when PyROOT is absent), grad_scale != 1 (only rescales min_nll)",
     "save/load: json.dump / yaml.safe_load reproduce every finite double exactly (Python repr round trip) — checked on the real files in every run, assumed in save_load_roundtrip",
     "'inside their bounds' is proved over the reals for the three built-in Bound transforms (C16 BoundR lemmas); on IEEE doubles the harness allows 4 ulp at an end point",
+    "C08b (method 'test'): line_search_wolfe2 / scalar_search_wolfe2 / _zoom are an oracle of the Lean model; the contract (new_fval, gfkp1 belong to xk + alpha pk) and the Armijo inequalities assumed by result_point_consistent / nonmonotone_bound are CHECKED on every answer the real line search gives in the recorded runs, not proved; np.linalg.inv is an oracle (its answers are recorded and fed to the model); the dead values of fmin_bfgs_f (Aredk, Predk, rk, tk, ystark) are not modelled; only B0=None, norm_ord=Inf (what fit_scipy uses); theorems over the reals (no NaN): the NaN behaviour is covered by the Float execution and the search only",
+    "C08b: Cached_FG's cache is keyed on the array object's VALUE at the time of the call: the theorems assume the caller does not mutate an array in place after passing it (fmin_bfgs_f and the line search always build new arrays xk + alpha*pk); -0.0 == 0.0 counts as the same point",
     "standard_complex runs after remove_bound in fit_scipy, so polar components are standardised even when they are bounded or fixed: the theorems about fixed / bounded values are stated for parameters that are not the r/i component of a complex parameter; for components the complex value is preserved (C16 std_polar theorems)",
 ]
 
@@ -524,6 +527,77 @@ def correspond(ctx, res):
     if ndis:
         res.broke("correspondence Fit.fit vs tf_pwa.fit.fit_scipy", {"n": ndis, "first": first})
         ctx.hint = first
+    correspond_fi(ctx, res)
+
+
+def correspond_fi(ctx, res):
+    """tf_pwa.fit_improve (method "test") vs TfPwaV.FitImprove: the real minimize / fmin_bfgs_f with the REAL line search on small
+    objectives; the recorded line-search / inverse / objective answers are fed to the model; whole iterate sequence + result"""
+    import c08_fi as FI
+    fixfi = FI.probe_fix()
+    ctx.fixfi = fixfi
+    res.notes.append("fit_improve variant observed (true = after fix_fit_improve_best_point.diff): %r" % fixfi)
+    cases = FI.gen_cases(ctx.seed, ctx.quick, ctx.suspect)
+    lines, recs = [], []
+    for c in cases:
+        kind, n, sd, x0, maxiter, gtol, M, cbl, raises = c
+        fg = FI.make_objective(kind, n, sd)
+        out, rec = FI.run_real(fg, x0, maxiter, gtol, M, cbl, raises)
+        lines.append(FI.run_line(x0, rec, maxiter, gtol, M, cbl, fixfi["best"]))
+        recs.append((c, fg, out, rec))
+    nmc = FI.nm_cases(ctx.seed, ctx.quick)
+    nmr = [FI.run_nm(c) for c in nmc]
+    lines += [FI.nm_line(c, tab, args, fixfi["refresh"]) for c, (out, tab, args) in zip(nmc, nmr)]
+    cac = FI.cache_cases(ctx.seed, ctx.quick)
+    car = [FI.run_cache(c) for c in cac]
+    lines += [FI.cache_line(c, tab) for c, (outs, tab) in zip(cac, car)]
+    ans = ctx.model.query(lines)
+    ndis, first, contract_bad = 0, None, []
+    exits, lskinds, nontriv, niter = {}, {}, set(), 0
+    for (c, fg, out, rec), line in zip(recs, ans):
+        why = "model could not parse the case" if line == "bad-op" else FI.compare_run(out, rec, FI.parse_run(line, c[1]), c[1])
+        if why:
+            ndis += 1
+            first = first or {"what": "fmin_bfgs_f", "case": list(c), "why": why[:1500]}
+        bad, cnt = FI.check_contract(fg, rec, fixfi["refresh"])
+        contract_bad += [{"case": list(c), "why": w[:600]} for w in bad]
+        for k, v in cnt.items():
+            lskinds[k] = lskinds.get(k, 0) + v
+        ek = "raised" if out[0] == "raised" else "status%d" % int(out[1].status)
+        exits[ek] = exits.get(ek, 0) + 1
+        niter += len(rec["ls"])
+        nontriv.add((c[0], c[1], ek, len(rec["ls"]), tuple(sorted(k for k, v in cnt.items() if v))))
+    # the run of TfPwaV.C08b.fun_above_start_witness(_fixed) on the real code
+    wit = [(c, out) for (c, fg, out, rec) in recs if c[0] == "witness"]
+    for c, out in wit:
+        want = (2.0, [1.0], 2) if fixfi["best"] else (18.0, [-3.0], 2)
+        got = (float(out[1].fun), [float(v) for v in out[1].x], int(out[1].status)) if out[0] == "ok" else out
+        if got != want:
+            res.broke("the run of C08b.fun_above_start_witness on the real fmin_bfgs_f", {"impl": got, "theorem": want, "best": fixfi["best"]})
+    off = len(recs)
+    for c, (out, tab, args), line in zip(nmc, nmr, ans[off:off + len(nmc)]):
+        why = "model could not parse the case" if line == "bad-op" else FI.compare_nm(out, line)
+        if why:
+            ndis += 1
+            first = first or {"what": "line_search_nonmonote", "case": list(c), "why": why[:1500]}
+    off += len(nmc)
+    for c, (outs, tab), line in zip(cac, car, ans[off:]):
+        why = "model could not parse the case" if line == "bad-op" else FI.compare_cache(outs, line)
+        if why:
+            ndis += 1
+            first = first or {"what": "Cached_FG", "case": [c[0], c[1], c[2], c[3], [list(o) for o in c[4]]], "why": why[:1500]}
+    res.coverage["fit_improve"] = {
+        "runs_of_the_real_minimiser_compared": len(recs), "loop_iterations_compared": niter, "exits": exits,
+        "line_search_answers": lskinds, "distinct_nontrivial": len(nontriv),
+        "line_search_nonmonote_calls_compared": len(nmc), "cached_fg_op_sequences_compared": len(cac),
+        "disagreements": ndis, "contract_violations_of_the_real_line_search": len(contract_bad), "variant": fixfi,
+        "rule": "real fit_improve.minimize (real line_search_wolfe2/_zoom/line_search_nonmonote) on quadratics, Rosenbrock, cosine sums, an L1 objective (failing Wolfe search), an objective with NaN gradient components (Cached_FG NaN branches, TypeError path), steep quadratics with harness-made line-search failures, maxiter 0..25/default, gtol 1e-3..1e-9, M 1..3, raising callback; recorded: every outer objective call, every line-search call (arguments, answer or exception, number of fun calls), every np.linalg.inv call; compared with FitImproveF.fminBfgs: arguments of every line-search call (xk, pk, gfk, window maximum, old_fval, old_old_fval), Bk after every update, status, nit, nfev, success, fun, x, jac, hess (1e-12 of the largest entry); on every recorded answer of the real line search: new_fval / gradient are those of xk + alpha pk, the Wolfe answers satisfy Armijo w.r.t. fk, the fallback answers w.r.t. the window maximum, fk <= window maximum",
+    }
+    res.coverage["traces_validated_against_impl"] = res.coverage.get("traces_validated_against_impl", 0) + len(recs) + len(nmc) + len(cac)
+    if ndis:
+        res.broke("correspondence FitImprove (fmin_bfgs_f / line_search_nonmonote / Cached_FG) vs tf_pwa.fit_improve", {"n": ndis, "first": first})
+    if contract_bad:
+        res.broke("the real line search breaks the contract the C08b theorems assume", {"n": len(contract_bad), "first": contract_bad[0]})
 
 
 # ----------------------------------------------------------------------------------------------
@@ -583,14 +657,21 @@ def check_fit(spec, vm, fcn, method, opts, before, start_nll, kind, r, leftover)
         site = "fit_scipy:jac-false"
     if opts.get("check_grad"):
         site = "fit_scipy:check_grad"
+    if opts.get("improve"):
+        site = "fit_scipy:improve:" + method
     if kind == "raised":
         fails.append(("%s:raises:%s" % (site, type(r).__name__), "fit_scipy(method=%r) raises %s: %s" % (method, type(r).__name__, r)))
         if vm.bnd_dic and not leftover:
             fails.append(("%s:raises:bnd_dic-left" % site, "after the exception vm.bnd_dic still holds %r" % list(vm.bnd_dic)))
         return fails
-    if r.success is False and opts.get("expect_large"):
-        site = "except_result"
     params = {k: float(v) for k, v in r.params.items()}
+    if r.success is False and opts.get("expect_large") and not any(math.isnan(v) for v in params.values()):
+        site = "except_result"
+    if math.isnan(float(r.min_nll)) or any(math.isnan(v) for v in params.values()):
+        nn = [k for k, v in params.items() if math.isnan(v)]
+        fails.append(("%s:nan-result" % site, "the fit returns min_nll = %r and NaN for %d parameter(s) %r; the model holds them (NLL(start) = %r, success = %r)" % (
+            float(r.min_nll), len(nn), nn[:3], start_nll, r.success)))
+        return fails
     # 1. the model holds exactly the listed values
     bad = [(k, v, state.get(k)) for k, v in params.items() if state.get(k) != v]
     if bad:
@@ -668,7 +749,7 @@ def check_fit(spec, vm, fcn, method, opts, before, start_nll, kind, r, leftover)
             import yaml
             loaded = yaml.safe_load(f)["value"]
         vm2 = S.build_vm(spec)
-        fcn2 = S.SynthFCN(vm2, spec["nll_seed"], spec["gauss"], linear=bool(opts.get("expect_large")), centre=spec.get("centre"))
+        fcn2 = S.SynthFCN(vm2, spec["nll_seed"], spec["gauss"], linear=bool(opts.get("expect_large")), centre=spec.get("centre"), kind=spec.get("landscape"))
         for c in vm.complex_vars:  # the coordinate flags of the fresh model as the fitted one has them (a fit never switches them)
             if vm2.complex_vars[c] != vm.complex_vars[c]:
                 fails.append(("%s:save-load" % site, "complex_vars[%r] differs between the fitted and a fresh model" % c))
@@ -691,7 +772,7 @@ def run_sequence(spec, seq, linear=False):
     """build the scenario, run the fits of `seq` one after the other on the real code, check after each; -> failures"""
     import c08_synth as S
     vm = S.build_vm(spec)
-    fcn = S.SynthFCN(vm, spec["nll_seed"], spec["gauss"], linear=linear, centre=spec.get("centre"))
+    fcn = S.SynthFCN(vm, spec["nll_seed"], spec["gauss"], linear=linear, centre=spec.get("centre"), kind=spec.get("landscape"))
     bounds = S.bounds_of(spec)
     fails, log = [], []
     for step in seq:
@@ -699,7 +780,7 @@ def run_sequence(spec, seq, linear=False):
         before = {n: float(v.numpy()) for n, v in vm.variables.items()}
         start = fcn.nll_of(before)
         leftover = bool(vm.bnd_dic)
-        kw = {k: v for k, v in opts.items() if k in ("maxiter", "jac", "check_grad")}
+        kw = {k: v for k, v in opts.items() if k in ("maxiter", "jac", "check_grad", "improve", "gtol")}
         if linear:
             opts["expect_large"] = True
         # `min_nll <= NLL(start)` presupposes a feasible start: inside the bounds the fit is asked to respect
@@ -844,6 +925,20 @@ def _one(method, **opts):
     return [{"method": method, "opts": opts}]
 
 
+# the library's own minimiser (method "test") on an NLL with kinks: the Wolfe search fails, the fallback search accepts a step,
+# the unguarded BFGS update divides by <yk, dki> = 0
+L1_SPEC = {
+    "polar": True, "ties": [], "fix": [], "gauss": {}, "nll_seed": 5, "bounds": {}, "landscape": "l1",
+    "vars": [{"k": "real", "name": "p0", "value": -1.319, "free": True}, {"k": "real", "name": "p1", "value": 2.696, "free": True}],
+}
+# a smooth NLL and a gradient tolerance below what double precision can reach: the same exit
+TIGHT_SPEC = {
+    "polar": True, "ties": [], "fix": [], "gauss": {}, "nll_seed": 11, "bounds": {},
+    "vars": [{"k": "real", "name": "p0", "value": 1.2, "free": True}, {"k": "real", "name": "p1", "value": 0.5, "free": True},
+             {"k": "real", "name": "p2", "value": 0.7, "free": True}],
+}
+
+
 # key of a listed finding -> (scenario, fit sequence, landscape without minimum?) that reproduces it on the unchanged tree
 KNOWN_INPUTS = {
     "fit_scipy:L-BFGS-B:raises:AttributeError": (PROBE_SPEC, _one("L-BFGS-B"), False),
@@ -858,6 +953,8 @@ KNOWN_INPUTS = {
     "standard_complex:fixed-polar-restandardised": (FIX_POLAR_SPEC, _one("BFGS"), False),
     "standard_complex:bounded-part-out-of-bounds": (BOUND_PHASE_SPEC, _one("BFGS"), False),
     "set_bound:tied-follower:out-of-bounds": (TIED_FOLLOWER_SPEC, _one("BFGS"), False),
+    "fit_scipy:test:nan-result": (L1_SPEC, _one("test"), False),
+    "fit_scipy:improve:test:raises:ValueError": (PROBE_SPEC, _one("test", improve=True, maxiter=2), False),
 }
 # further keys produced by the same inputs: <method>:raises:bnd_dic-left (CG, Nelder-Mead, test), fit_minuit:out-of-bounds
 
@@ -887,7 +984,15 @@ def synth_cases(ctx):
             cases.append(("jac-false", spec, [{"method": "BFGS", "opts": {"jac": False, "maxiter": 30}}], False))
             cases.append(("check-grad", spec, [{"method": "BFGS", "opts": {"check_grad": True, "maxiter": 2}}], False))
             cases.append(("large", spec, [{"method": "BFGS", "opts": {}}], True))
-    for m in (["BFGS", "Newton-CG", "trust-exact", "iminuit", "L-BFGS-B"] + ([] if ctx.quick else ["CG", "Nelder-Mead", "trust-krylov-p", "test"])):
+            # improve=True: the second minimisation stage (first stage stopped early, so it is entered)
+            for m in ("BFGS", "CG", "test"):
+                cases.append(("improve", spec, [{"method": m, "opts": {"improve": True, "maxiter": 2}}], False))
+            cases.append(("own-minimiser", spec, [{"method": "test", "opts": {"maxiter": 3}}, {"method": "test", "opts": {}}], False))
+            cases.append(("own-minimiser", spec, [{"method": "test", "opts": {"maxiter": 60}}], True))
+    cases.append(("own-minimiser", L1_SPEC, _one("test"), False))
+    cases.append(("own-minimiser", TIGHT_SPEC, _one("test", gtol=1e-13), False))
+    cases.append(("own-minimiser", TIGHT_SPEC, _one("test", maxiter=0), False))
+    for m in (["BFGS", "Newton-CG", "trust-exact", "iminuit", "L-BFGS-B", "test"] + ([] if ctx.quick else ["CG", "Nelder-Mead", "trust-krylov-p"])):
         cases.append(("zero-limit", ZERO_LIMIT_SPEC, _one(m, **({"maxiter": 150} if m == "Nelder-Mead" else {})), False))
     for spec in NEG_R_TIE_SPECS:
         for m, o in ([("BFGS", {"maxiter": 0}), ("BFGS", {"maxiter": 2}), ("L-BFGS-B", {"maxiter": 2}), ("BFGS", {})] + ([] if ctx.quick else [("CG", {"maxiter": 2}), ("Newton-CG", {}), ("iminuit", {}), ("L-BFGS-B", {})])):
@@ -1073,10 +1178,76 @@ def real_cases(ctx):
     return seqs
 
 
+def search_fi(ctx, res, seen):
+    """the clauses on the library's own minimiser, with its real line search (no harness-made failures), model independent"""
+    import c08_fi as FI
+    n, keys = 0, {}
+    for c in FI.gen_cases(ctx.seed, ctx.quick, ctx.suspect):
+        kind, nd, sd, x0, maxiter, gtol, M, cbl, raises = c
+        if raises:
+            continue
+        fg = FI.make_objective(kind, nd, sd)
+        out, rec = FI.run_real(fg, x0, maxiter, gtol, M, cbl, ())
+        n += 1
+        for key, what in FI.check_clauses(fg, x0, out, maxiter, gtol, nd):
+            keys[key] = keys.get(key, 0) + 1
+            if key not in seen:
+                seen[key] = True
+                res.fail(key, what, {"kind": "fmin", "case": list(c)})
+    # Cached_FG: what fun / grad / __call__ hand out belongs to the point asked for (oracle: the objective itself)
+    import numpy as np
+    nops = 0
+    for c in FI.cache_cases(ctx.seed, ctx.quick):
+        kind, nd, sd, scale, ops = c
+        fg = FI.make_objective(kind, nd, sd)
+        outs, tab = FI.run_cache(c)
+        for (op, x), (op2, vals, nc) in zip(ops, outs):
+            nops += 1
+            if vals is None:
+                continue
+            ft, gt = fg(np.array(x, float))
+            known = ~np.isnan(gt)
+            if op == "F":
+                okv = vals[0] == ft
+            elif op == "G":
+                okv = np.array_equal(np.array(vals)[known], gt[known])
+            else:
+                okv = vals[0] == scale * ft and np.array_equal(np.array(vals[1:])[known], (scale * gt)[known])
+            if not okv:
+                key = "Cached_FG:value-of-another-point"
+                keys[key] = keys.get(key, 0) + 1
+                if key not in seen:
+                    seen[key] = True
+                    res.fail(key, "Cached_FG(%s objective).%s(%r) returns %r after the calls %r; the objective at that point gives f = %r, grad = %r" % (
+                        kind, {"F": "fun", "G": "grad", "C": "__call__"}[op], x, vals, [list(o) for o in ops], ft, gt.tolist()), {"kind": "cache", "case": [kind, nd, sd, scale, [list(o) for o in ops]]})
+    res.coverage["search_cached_fg_ops"] = nops
+    res.coverage["search_own_minimiser_runs"] = n
+    res.coverage["search_own_minimiser_failed_clauses"] = keys
+
+
+def probe_root(res):
+    """method="root" needs PyROOT: when it is absent the call must fail before it touches the model"""
+    import c08_synth as S
+    vm = S.build_vm(PROBE_SPEC)
+    fcn = S.SynthFCN(vm, 11)
+    before = dump_vm(vm)
+    kind, r = run_fit(fcn, "root", S.bounds_of(PROBE_SPEC))
+    after = dump_vm(vm)
+    res.coverage["search_method_root"] = "returned" if kind == "ok" else "%s (%d evaluations)" % (type(r).__name__, fcn.n_call)
+    if kind == "raised" and isinstance(r, ImportError):
+        if before != after or fcn.n_call:
+            return [("fit_scipy:root:import-error-touches-state", "fit_scipy(method='root') without PyROOT raises %s but changed the model state first" % type(r).__name__)]
+    return []
+
+
 def search(ctx, res):
     ncase, nfit, nclauses = 0, 0, 0
     seen = {}
     tags = {}
+    search_fi(ctx, res, seen)
+    for key, what in probe_root(res):
+        seen[key] = True
+        res.fail(key, what, {"kind": "root"})
     for tag, spec, seq, linear in synth_cases(ctx):
         fails, log = run_sequence(spec, seq, linear)
         ncase += 1
@@ -1118,7 +1289,30 @@ def replay(ctx, payload):
     if key is None or not rp:
         print("replay file names a broken obligation, not a failing input: %s" % json.dumps(payload.get("broken"), default=str)[:3000])
         return 1
-    if rp.get("kind") == "scripted":
+    if rp.get("kind") == "fmin":
+        import c08_fi as FI
+        kind, nd, sd, x0, maxiter, gtol, M, cbl, raises = rp["case"]
+        fg = FI.make_objective(kind, nd, sd)
+        out, rec = FI.run_real(fg, x0, maxiter, gtol, M, cbl, tuple(raises))
+        fails = FI.check_clauses(fg, x0, out, maxiter, gtol, nd)
+    elif rp.get("kind") == "cache":
+        class _C:
+            pass
+        c2, r2 = _C(), C.Result()
+        c2.seed, c2.quick, c2.suspect = ctx.seed, True, False
+        import c08_fi as FI
+        orig = FI.cache_cases
+        FI.cache_cases = lambda *a, **k: [tuple(rp["case"][:4]) + ([tuple(o) for o in rp["case"][4]],)]
+        orig_gen = FI.gen_cases
+        FI.gen_cases = lambda *a, **k: []
+        try:
+            search_fi(c2, r2, {})
+        finally:
+            FI.cache_cases, FI.gen_cases = orig, orig_gen
+        fails = [(f.key, f.what) for f in r2.failures]
+    elif rp.get("kind") == "root":
+        fails = probe_root(C.Result())
+    elif rp.get("kind") == "scripted":
         fails = run_scripted(rp["spec"], rp["method"], rp["script"])
     elif rp.get("kind") == "synth":
         fails, log = run_sequence(rp["spec"], rp["seq"], bool(rp.get("linear")))
@@ -1133,7 +1327,7 @@ def replay(ctx, payload):
 
 
 MANIFEST = {
-    "text": "Lean theorems about Fit.fit, the model of the bookkeeping of fit_scipy / fit_newton_cg / fit_minuit_v2 / except_result around an ORACLE minimiser (arbitrary evaluations, arbitrary answer), built on the C16 VarsManager state machine, for every value arithmetic, every state satisfying the C16 invariant, every bound set and every oracle: the stored value of every free parameter is the answer mapped through its bound transform, FitResult.params is what the model holds, fixed parameters are untouched, tied names stay on one object, vm.bnd_dic is empty again, values of bounded parameters lie inside their bounds (over the reals); per branch either this statement (patched variant) or its refutation on a concrete witness plus the part that still holds (unchanged tree); loading a saved result into a fresh model reproduces every stored value. Each Fix flag is observed on the real code in every run.",
-    "note": "Proved for any optimiser answer: the bookkeeping. Validated only (depends on scipy / iminuit): min_nll = NLL(params), min_nll <= NLL(start), bounds handed to L-BFGS-B / Minuit limits, convergence. Correspondence: scripted minimiser through the real fit_scipy vs the Lean model (state before/after, exception type, FitResult), 70 quick / 600 thorough cases over all method names. Search: real scipy/iminuit on a synthetic FCN over a real VarsManager (all method names, maxiter 0/1/5/default, two fits in a row, jac=False, check_grad, LargeNumberError) and ConfigLoader.fit on a 2-chain model incl. save_as / save_params into a fresh ConfigLoader. Outside the model: check_grad, improve, method root.",
-    "technique": "Lean 4 proof over an oracle-parameterised state-machine model + scripted-oracle differential correspondence with the real fit code + property search with the real minimisers",
+    "text": "Lean theorems about Fit.fit, the model of the bookkeeping of fit_scipy / fit_newton_cg / fit_minuit_v2 / except_result around an ORACLE minimiser (arbitrary evaluations, arbitrary answer), built on the C16 VarsManager state machine, for every value arithmetic, every state satisfying the C16 invariant, every bound set and every oracle: the stored value of every free parameter is the answer mapped through its bound transform, FitResult.params is what the model holds, fixed parameters are untouched, tied names stay on one object, vm.bnd_dic is empty again, values of bounded parameters lie inside their bounds (over the reals); per branch either this statement (patched variant) or its refutation on a concrete witness plus the part that still holds (unchanged tree); loading a saved result into a fresh model reproduces every stored value. Each Fix flag is observed on the real code in every run. C08b: the ONE minimiser the library ships itself (fit_scipy(method='test') -> fit_improve.minimize -> fmin_bfgs_f) is inside the Lean model (templates/FitImprove.lean.in, one text for R and Float): Cached_FG (cache keyed on x, fun/grad/__call__, both NaN branches as they are), Seq, line_search_nonmonote, the outer loop of fmin_bfgs_f as a state machine with its three exits and the OptimizeResult; line_search_wolfe2/_zoom and np.linalg.inv are oracles. Proved for every dimension, objective, start point, gtol, M, maxiter, inverse oracle, callback and every line-search answer sequence: result_point_consistent (s.fun = f(s.x), s.jac = grad f(s.x) on every exit, given the line-search contract new_fval = f(xk+alpha pk), gfkp1 = grad f(xk+alpha pk)); iteration_bound / exit_bookkeeping (at most maxiter bodies, nit = index of the last body, status in {0,1,2}, success <=> status 0 => |jac|_inf <= gtol); window_invariant and nonmonotone_bound (fk is in the window of the last <= M values, an accepted value that passed either test of the search is <= window maximum + c1*alpha*<gk,pk>, nothing more); fun_le_start_of_armijo (s.fun <= f(x0) IF every search returns a step not above the window maximum); fun_above_start_witness (kernel-checked: on the unchanged tree s.fun <= f(x0) does NOT follow: f = 2x^2, one failed line search, s.fun = 18 > 2; replayed on the real fmin_bfgs_f in every run) and fun_le_start_fixed (after fix_fit_improve_best_point.diff it holds for EVERY objective and line search); cache_invariant, call_is_function_of_point, cached_grad_is_grad_of_x (Cached_FG never hands out the value of another point); nonmonote_found / nonmonote_notfound_refreshed / nonmonote_notfound_stale_witness (the fallback search keeps the contract when it finds a step, breaks it on its 'not found' exit on the unchanged tree).",
+    "note": "Proved for any optimiser answer: the bookkeeping (C08); for the library's own minimiser (C08b): consistency of the returned point, iteration/exit bookkeeping, the non-monotone acceptance bound, the cache. Validated only: for scipy / iminuit min_nll = NLL(params), min_nll <= NLL(start), bounds handed to L-BFGS-B / Minuit limits, convergence; for method 'test' the contract and the Armijo inequalities of line_search_wolfe2 / scalar_search_wolfe2 / _zoom (not modelled: checked on every answer of the real line search the harness records), np.linalg.inv, IEEE vs real arithmetic (NaN propagation is executed in the Float instance, the theorems are over R), convergence. Correspondence: scripted minimiser through the real fit_scipy vs Fit.fit (70 quick / 600 thorough cases over all method names); the real fit_improve.minimize with its real line search on quadratics / Rosenbrock / cosine sums / an L1 objective / NaN-gradient objectives / harness-made line-search failures vs FitImproveF.fminBfgs fed with the recorded line-search and inverse answers (every line-search argument, Bk, all result fields, 1e-12), line_search_nonmonote and Cached_FG op sequences directly. Search: real scipy/iminuit/own minimiser on a synthetic FCN over a real VarsManager (all method names incl. 'test', maxiter 0/1/5/default, two fits in a row, jac=False, check_grad, improve=True, LargeNumberError, an NLL with kinks) and ConfigLoader.fit on a 2-chain model incl. save_as / save_params into a fresh ConfigLoader; method='root' (PyROOT absent: must fail before touching the model). Known findings of C08b: method 'test' can return NaN parameters / NaN min_nll (fix_fit_improve_best_point.diff), method 'test' with improve=True raises ValueError (fix_fit_improve_stage_own_minimiser.diff).",
+    "technique": "Lean 4 proof over an oracle-parameterised state-machine model (bookkeeping; the library's own BFGS with the line search as oracle, one template for R and Float) + differential correspondence with the real fit code (scripted oracle; recorded line-search answers) + property search with the real minimisers",
 }
